@@ -25,6 +25,7 @@ type Clause struct {
 	CallName string
 	CallOrd  int
 	After    bool // assert evaluated after the call (with results bound)
+	Def      bool // definitional ensures (assumed at call sites only)
 }
 
 type ModLoc struct {
@@ -219,7 +220,7 @@ func (cs *Contracts) parseLine(cur **FuncContract, t, path string, ln int, pkgPa
 		}
 	}
 	switch word {
-	case "requires", "ensures":
+	case "requires", "ensures", "defines":
 		if *cur == nil {
 			return errf("%s outside function contract", word)
 		}
@@ -229,6 +230,12 @@ func (cs *Contracts) parseLine(cur **FuncContract, t, path string, ln int, pkgPa
 			return errf("%v", err)
 		}
 		c := &Clause{Kind: word, Prop: tagProp, Label: tagLabel, Src: rest, E: e, File: path, Line: ln}
+		if word == "defines" {
+			// definitional postcondition: introduces a ghost predicate at this function's return; assumed at call
+			// sites, not an obligation of the body (reported as an assumption)
+			c.Kind = "ensures"
+			c.Def = true
+		}
 		if word == "requires" {
 			(*cur).Requires = append((*cur).Requires, c)
 		} else {
